@@ -8,6 +8,16 @@ state and everything between the two harness ends is repository code.
 spec keys: mp (master protocol: axil, wb, axi, ahb), kind, lanes (master byte lanes), words (master
 words), init, k, dirs, strbs/datas (write alphabet), gfree (gate groups), bad (1: upper half of the
 memory is a faulting region), base, idle_addr, ...
+Environment freedoms / parameter classes added by the C09 audit (all optional, default off):
+  wbidle=1      Wishbone master: cyc without stb and stb without cyc (with request payload) between requests
+  badrange=[lo, hi)  faulting region = these bytes only, aligned to the narrow (slave) word: a master word of a
+                down-converter can be partly faulting (needs bad=1)
+  wbaddr="byte" the bridge's Wishbone side is byte addressed (axil2wb, axi2wb, ahb2wb)
+  xfers=[[addr, write, size], ...]  AHB: explicit transfer list (64-bit buses)
+  nosel=1       AHB master: NONSEQ address phases with HSEL low
+  kind="chain_s2m_wb"  SoCBusHandler.add_adapter(direction="s2m"): Wishbone slave on an AXI-Lite bus
+  ahead=1       (with wbuf / abuf) the slave-side monitor counts what the partner accepted ahead, for witnesses
+  wit=[...]     witnesses (printed by TLC, specs/bridges/BridgeWit.tla) the exploration of this DUT must show
 """
 from migen import Module, Signal, Cat, Constant, Memory, Mux, If, Replicate
 
@@ -104,7 +114,7 @@ def _gate_resp(top, dn, up, g):
     top.sync += held.eq(up.valid & ~up.ready)
 
 
-def _axi_shim(top, up, dn, gates, badbyte=None, wbuf=False, abuf=False):
+def _axi_shim(top, up, dn, gates, badbyte=None, wbuf=False, abuf=False, badend=None):
     """AXI-Lite / AXI stall shim between the bridge's master port `up` and the memory `dn`.
     wbuf / abuf: a stream.Buffer in front of the gate on W / on AW and AR, i.e. a partner that accepts
     data before its address / addresses ahead of the memory"""
@@ -125,17 +135,21 @@ def _axi_shim(top, up, dn, gates, badbyte=None, wbuf=False, abuf=False):
     if badbyte is not None:
         # faulting region: the (single outstanding, in order) memory's answers to it become SLVERR
         bad_w, bad_r = Signal(), Signal()
-        top.sync += [If(dn.aw.valid & dn.aw.ready, bad_w.eq(dn.aw.addr >= badbyte)),
-                     If(dn.ar.valid & dn.ar.ready, bad_r.eq(dn.ar.addr >= badbyte))]
+        def isbad(a):
+            return (a >= badbyte) if badend is None else ((a >= badbyte) & (a < badend))
+        top.sync += [If(dn.aw.valid & dn.aw.ready, bad_w.eq(isbad(dn.aw.addr))),
+                     If(dn.ar.valid & dn.ar.ready, bad_r.eq(isbad(dn.ar.addr)))]
         top.comb += [If(bad_w, up.b.resp.eq(RESP_SLVERR)), If(bad_r, up.r.resp.eq(RESP_SLVERR))]
 
 
-def _wb_shim(top, up, dn, go, badword=None):
-    """Wishbone stall shim: the SRAM sees the cycle only while go = 1 and acknowledges one cycle later"""
-    top.comb += [dn.cyc.eq(up.cyc & go), dn.stb.eq(up.stb & go), dn.we.eq(up.we), dn.adr.eq(up.adr),
+def _wb_shim(top, up, dn, go, badword=None, shift=0):
+    """Wishbone stall shim: the SRAM sees the cycle only while go = 1 and acknowledges one cycle later.
+    shift: `up` is byte addressed (wishbone.SRAM is word addressed only): the shim drops the lane bits"""
+    wadr = up.adr[shift:] if shift else up.adr
+    top.comb += [dn.cyc.eq(up.cyc & go), dn.stb.eq(up.stb & go), dn.we.eq(up.we), dn.adr.eq(wadr),
                  dn.sel.eq(up.sel), dn.dat_w.eq(up.dat_w), up.ack.eq(dn.ack), up.dat_r.eq(dn.dat_r)]
     if badword is not None:
-        top.comb += up.err.eq(dn.ack & (up.adr >= badword))
+        top.comb += up.err.eq(dn.ack & (wadr >= badword))
 
 
 def _axi_souts(up, lanes, full):
@@ -182,8 +196,10 @@ def _axil_master(top, spec, m):
 def _wb_master(top, spec, m, byte_addressing=False):
     L = spec["lanes"]
     base = spec.get("base", 0)
-    req, adr, we, sel, data = Signal(), Signal(max=max(2, spec["words"])), Signal(), Signal(L), Signal(L)
-    top.comb += [m.cyc.eq(req), m.stb.eq(req), m.we.eq(we), m.sel.eq(sel), m.dat_w.eq(_spread(data, L)),
+    # req: 0 idle, 1 request (cyc & stb), 2 cyc only, 3 stb only (2, 3: Env flag wbidle)
+    req, adr, we, sel, data = Signal(2), Signal(max=max(2, spec["words"])), Signal(), Signal(L), Signal(L)
+    top.comb += [m.cyc.eq((req == 1) | (req == 2)), m.stb.eq((req == 1) | (req == 3)), m.we.eq(we), m.sel.eq(sel),
+                 m.dat_w.eq(_spread(data, L)),
                  m.adr.eq((base + adr * L) if byte_addressing else (base // L + adr))]
     outs = [m.ack, m.err] + _bytes(m.dat_r, L)
     return [req, adr, we, sel, data], outs
@@ -215,9 +231,11 @@ def _axi_master(top, spec, m):
 def _ahb_master(top, spec, m):
     L = spec["lanes"]
     base = spec.get("base", 0)
-    trans, addr, write, size, wdata = Signal(), Signal(max=max(2, spec["words"] * L)), Signal(), Signal(2), Signal(L)
-    top.comb += [m.sel.eq(1), m.trans.eq(Mux(trans, ahb.AHBTransferType.NONSEQUENTIAL, ahb.AHBTransferType.IDLE)),
-                 m.addr.eq(Mux(trans, base + addr, 0)), m.write.eq(write), m.size.eq(size),
+    # trans: 0 IDLE, 1 NONSEQ to this slave, 2 NONSEQ with HSEL low (Env flag nosel)
+    trans, addr, write, size, wdata = Signal(2), Signal(max=max(2, spec["words"] * L)), Signal(), Signal(2), Signal(L)
+    top.comb += [m.sel.eq(trans != 2),
+                 m.trans.eq(Mux(trans != 0, ahb.AHBTransferType.NONSEQUENTIAL, ahb.AHBTransferType.IDLE)),
+                 m.addr.eq(Mux(trans != 0, base + addr, 0)), m.write.eq(write), m.size.eq(size),
                  m.wdata.eq(_spread(wdata, L))]
     return [trans, addr, write, size, wdata], [m.readyout, m.resp] + _bytes(m.rdata, L)
 
@@ -230,7 +248,7 @@ def slave_lanes(spec):
         return L // spec["ratio"]
     if k == "up":
         return L * spec["ratio"]
-    if k in ("chain_wb_axil", "chain_axil_wb"):
+    if k in ("chain_wb_axil", "chain_axil_wb", "chain_s2m_wb"):
         return spec["slanes"]
     return spec.get("slanes", L)
 
@@ -238,7 +256,7 @@ def slave_lanes(spec):
 def slave_proto(spec):
     return {"sram": "none", "axil2wb": "wb", "down": "axil", "up": "axil", "conv": "axil", "axil2csr": "csr",
             "axil2axi": "axi", "wb2axil": "axil", "wb2axi": "axi", "axi2axil": "axil", "axi2wb": "wb",
-            "ahb2wb": "wb", "chain_wb_axil": "axil", "chain_axil_wb": "wb"}[spec["kind"]]
+            "ahb2wb": "wb", "chain_wb_axil": "axil", "chain_axil_wb": "wb", "chain_s2m_wb": "wb"}[spec["kind"]]
 
 
 def make(spec):
@@ -248,6 +266,14 @@ def make(spec):
     img = image(spec)
     nbytes = len(img)
     badbyte = nbytes // 2 if spec.get("bad") else None
+    badend = None
+    if spec.get("badrange"):
+        # faulting region at the granularity of the slave (narrow) word: only where the backing memory is the
+        # narrow one, i.e. behind a down-converter
+        assert spec.get("bad") and kind in ("down", "conv") and SL < L
+        badbyte, badend = spec["badrange"]
+        assert badbyte % SL == 0 and badend % SL == 0 and 0 <= badbyte < badend <= nbytes
+    wbbyte = spec.get("wbaddr", "word") == "byte"
     top = Module()
     gates = [Signal(name="g%d" % i) for i in range(5)]
     souts = []
@@ -258,10 +284,11 @@ def make(spec):
             top.comb += m.connect(mem)
         elif kind == "axil2wb":
             shift = (L - 1).bit_length()
-            wb = wishbone.Interface(data_width=8 * L, adr_width=ADDRW - shift, addressing="word")
+            wb = wishbone.Interface(data_width=8 * L, adr_width=ADDRW - shift, addressing="byte" if wbbyte else "word")
+            assert len(wb.adr) == (ADDRW if wbbyte else ADDRW - shift)
             mem = _wb_sram(top, L, img, ADDRW - shift)
             top.submodules += axi_lite_to_wishbone.AXILite2Wishbone(m, wb, base_address=spec.get("base", 0))
-            _wb_shim(top, wb, mem, gates[0], None if badbyte is None else badbyte // SL)
+            _wb_shim(top, wb, mem, gates[0], None if badbyte is None else badbyte // SL, shift if wbbyte else 0)
             souts = _wb_souts(wb, SL)
         elif kind in ("down", "up", "conv"):
             s = axi_lite.AXILiteInterface(data_width=8 * SL, address_width=ADDRW)
@@ -269,7 +296,7 @@ def make(spec):
             cls = {"down": axi_lite.AXILiteDownConverter, "up": axi_lite.AXILiteUpConverter,
                    "conv": axi_lite.AXILiteConverter}[kind]
             top.submodules += cls(m, s)
-            _axi_shim(top, s, mem, gates, badbyte, wbuf=bool(spec.get("wbuf")), abuf=bool(spec.get("abuf")))
+            _axi_shim(top, s, mem, gates, badbyte, wbuf=bool(spec.get("wbuf")), abuf=bool(spec.get("abuf")), badend=badend)
             souts = _axi_souts(s, SL, False)
         elif kind == "axil2csr":
             csr = csr_bus.Interface(data_width=8 * L, address_width=ADDRW)
@@ -289,6 +316,17 @@ def make(spec):
             m = axi_lite.AXILiteInterface(data_width=8 * L, address_width=32)
             wb = _soc_adapter(top, "wishbone", 8 * SL, m, "m2s")
             assert isinstance(wb, wishbone.Interface) and wb.data_width == 8 * SL
+            mem = _wb_sram(top, SL, img, 30)
+            _wb_shim(top, wb, mem, gates[0], None)
+            souts = _wb_souts(wb, SL)
+        elif kind == "chain_s2m_wb":
+            # what SoCBusHandler.add_adapter(direction="s2m") builds for a word addressed Wishbone slave of 8*SL
+            # bits on an AXI-Lite bus of 8*L bits (the usual way a Wishbone peripheral joins an AXI-Lite SoC):
+            # AXILite2Wishbone with a BYTE addressed Wishbone side, the byte->word address adaptation of the
+            # s2m branch and, if SL != L, wishbone.Converter
+            wb = wishbone.Interface(data_width=8 * SL, address_width=32, addressing="word")
+            m = _soc_adapter(top, "axi-lite", 8 * L, wb, "s2m")
+            assert isinstance(m, axi_lite.AXILiteInterface) and m.data_width == 8 * L
             mem = _wb_sram(top, SL, img, 30)
             _wb_shim(top, wb, mem, gates[0], None)
             souts = _wb_souts(wb, SL)
@@ -332,10 +370,10 @@ def make(spec):
             souts = _axi_souts(s, SL, False)
         elif kind == "axi2wb":
             shift = (L - 1).bit_length()
-            wb = wishbone.Interface(data_width=8 * L, adr_width=ADDRW - shift, addressing="word")
+            wb = wishbone.Interface(data_width=8 * L, adr_width=ADDRW - shift, addressing="byte" if wbbyte else "word")
             mem = _wb_sram(top, L, img, ADDRW - shift)
             top.submodules += axi_full_to_wishbone.AXI2Wishbone(m, wb, base_address=spec.get("base", 0))
-            _wb_shim(top, wb, mem, gates[0], None if badbyte is None else badbyte // SL)
+            _wb_shim(top, wb, mem, gates[0], None if badbyte is None else badbyte // SL, shift if wbbyte else 0)
             souts = _wb_souts(wb, SL)
         else:
             raise ValueError(kind)
@@ -343,10 +381,10 @@ def make(spec):
     elif mp == "ahb":
         shift = (L - 1).bit_length()
         m = ahb.AHBInterface(data_width=8 * L, address_width=ADDRW)
-        wb = wishbone.Interface(data_width=8 * L, adr_width=ADDRW - shift, addressing="word")
+        wb = wishbone.Interface(data_width=8 * L, adr_width=ADDRW - shift, addressing="byte" if wbbyte else "word")
         mem = _wb_sram(top, L, img, ADDRW - shift)
         top.submodules += ahb.AHB2Wishbone(m, wb)
-        _wb_shim(top, wb, mem, gates[0], None if badbyte is None else badbyte // SL)
+        _wb_shim(top, wb, mem, gates[0], None if badbyte is None else badbyte // SL, shift if wbbyte else 0)
         souts = _wb_souts(wb, SL)
         ins, outs = _ahb_master(top, spec, m)
     else:
@@ -373,6 +411,25 @@ def tla_cfg(spec):
     mp = spec["mp"]
     img = image(spec)
     mo = {"axil": 7 + L, "wb": 2 + L, "axi": 10 + L, "ahb": 2 + L}[mp]
+    extra = {}
+    if spec.get("wbidle"):
+        assert mp == "wb"
+        extra["wbidle"] = 1
+    if spec.get("badrange"):
+        extra["badhi"] = spec["badrange"][1]
+    if spec.get("ahead"):
+        assert spec.get("wbuf") or spec.get("abuf")
+        extra["ahead"] = 1
+    if spec.get("nosel"):
+        assert mp == "ahb"
+        extra["nosel"] = 1
+    if spec.get("xfers"):
+        assert mp == "ahb"
+        extra["xfers"] = [list(x) for x in spec["xfers"]]
+    return dict(extra, **_tla_cfg(spec, L, mp, img, mo))
+
+
+def _tla_cfg(spec, L, mp, img, mo):
     return {"mp": mp, "sp": slave_proto(spec), "lanes": L, "words": spec["words"], "init": img,
             "k": spec.get("k", 1), "serial": int(spec.get("serial", 0)), "awfirst": int(spec.get("awfirst", 0)), "dirs": spec.get("dirs", "rw"), "walpha": walpha(spec), "wwords": list(spec.get("wwords", range(spec["words"]))),
             "rwords": list(spec.get("rwords", range(spec["words"]))), "rsels": list(spec.get("rsels", [2 ** L - 1])),
@@ -380,7 +437,7 @@ def tla_cfg(spec):
             "addrs": list(spec.get("addrs", range(spec["words"] * L))), "datas": list(spec.get("datas", [5, 10])),
             "plans": [list(p) for p in spec.get("plans", [[0, 0, 1]])],
             "readonly": int(bool(spec.get("read_only"))),
-            "badlo": (len(img) // 2 + 1) if spec.get("bad") else 0,
+            "badlo": ((spec["badrange"][0] + 1) if spec.get("badrange") else (len(img) // 2 + 1)) if spec.get("bad") else 0,
             "gfree": list(spec.get("gfree", [0, 0, 0, 0, 0])), "mo": mo, "slanes": slave_lanes(spec)}
 
 
@@ -512,8 +569,8 @@ class Hint:
     def _ahb_next(self, cfg, ctx, iv, o):
         ap, dp = ctx
         if not o[0]:
-            return (tuple(iv[:4]) if iv[0] else None, ("w", iv[4]) if dp and dp[0] == "w" else dp)
-        return (None, (("w", None) if iv[2] else ("r",)) if iv[0] else None)
+            return (tuple(iv[:4]) if iv[0] == 1 else None, ("w", iv[4]) if dp and dp[0] == "w" else dp)
+        return (None, (("w", None) if iv[2] else ("r",)) if iv[0] == 1 else None)
 
     # ---------------------------------------------------------------- dispatch
     def allowed(self, cfg, ctx, iv):
@@ -534,7 +591,7 @@ class Hint:
             return self._axi_next(cfg, ctx, iv, o)
         if mp == "ahb":
             return self._ahb_next(cfg, ctx, iv, o)
-        if iv[0] and not (o[0] or o[1]):
+        if iv[0] == 1 and not (o[0] or o[1]):
             return tuple(iv[:5])
         return None
 
@@ -549,7 +606,9 @@ def configs(tier):
     T = tier == "thorough"
 
     def add(**spec):
-        out.append((spec, tla_cfg(spec)))
+        cfg = tla_cfg(spec)
+        cfg["wi"] = len(out)          # witness index (specs/bridges/BridgeWit.tla)
+        out.append((spec, cfg))
     G1 = [1, 1, 1, 1, 1]          # one gate for all channels
     GW = [1, 2, 3, 0, 0]          # independent AW / W / B gates (write direction)
     GR = [0, 0, 0, 1, 2]          # independent AR / R gates (read direction)
@@ -583,7 +642,16 @@ def configs(tier):
     add(mp="axil", kind="down", ratio=2, lanes=2, words=2, gfree=GR, dirs="r", live=1)
     add(mp="axil", kind="down", ratio=2, lanes=2, words=2, gfree=G1, strbs=[3, 1, 2], bad=1, serial=1, **LV)
     add(mp="axil", kind="down", ratio=2, lanes=4, words=2, gfree=G1, strbs=[15, 3, 12, 0], datas=[5, 10], wwords=[1], serial=1)  # 16-bit slave
+    # faulting region of one narrow word in each master word (word 0: upper half, word 1: lower half): only ONE of the
+    # sub-word accesses of a converted access is answered with an error (sticky error / error of the last sub-word)
+    PART = ["write error, partly faulting word", "read error, partly faulting word"]
+    add(mp="axil", kind="down", ratio=2, lanes=2, words=2, gfree=G1, strbs=[3, 1, 2], bad=1, badrange=[1, 3], serial=1, **LV,
+        wit=PART)
     if T:
+        add(mp="axil", kind="down", ratio=4, lanes=4, words=2, gfree=G1, strbs=[15, 2, 4, 9], bad=1, badrange=[2, 5], serial=1,
+            **LV, wit=PART, cost=3)
+        add(mp="axil", kind="down", ratio=2, lanes=4, words=2, gfree=G1, strbs=[15, 3, 12], bad=1, badrange=[2, 6], serial=1,
+            **LV, wit=PART, cost=2)
         add(mp="axil", kind="down", ratio=2, lanes=2, words=2, gfree=G1, **LV, cost=3)
         add(mp="axil", kind="down", ratio=4, lanes=4, words=2, gfree=G1, strbs=[15, 1, 3, 8, 6, 0], datas=[5, 10], wwords=[1], serial=1,
             cost=4)
@@ -626,7 +694,14 @@ def configs(tier):
     add(mp="wb", kind="wb2axil", lanes=4, words=2, dirs="r", base=0x40, live=1)
     add(mp="wb", kind="wb2axil", lanes=8, words=2, dirs="r", base=8, live=1, case="base-address-64bit", alone=1)
     add(mp="wb", kind="wb2axi", lanes=1, words=2, gfree=G4, live=1)
+    # a master that keeps cyc between its requests (stb low) / a slave position behind wishbone.Decoder (stb and the
+    # payload of requests to other slaves visible while cyc is low)
+    WBI = ["cyc without stb", "stb without cyc"]
+    add(mp="wb", kind="wb2axil", lanes=1, words=2, gfree=G1, wbidle=1, wit=WBI, cost=2)
     if T:
+        add(mp="wb", kind="wb2axil", lanes=1, words=2, gfree=G3, wbidle=1, wit=WBI, live=1, cost=2)
+        add(mp="wb", kind="wb2axi", lanes=1, words=2, gfree=G1, wbidle=1, wit=WBI, cost=2)
+        add(mp="wb", kind="wb2axil", lanes=2, words=2, gfree=G1, init="alt", datas=[1, 2], strbs=[3, 1], wbidle=1, wit=WBI, cost=3)
         add(mp="wb", kind="wb2axil", lanes=1, words=2, gfree=[1, 2, 3, 4, 5], live=1)
         add(mp="wb", kind="wb2axil", lanes=1, words=2, gfree=G4, wbuf=1, abuf=1, live=1)
         add(mp="wb", kind="wb2axi", lanes=1, words=2, gfree=GW, wbuf=1, live=1)
@@ -635,7 +710,15 @@ def configs(tier):
         add(mp="wb", kind="wb2axi", lanes=1, words=2, gfree=[1, 2, 3, 4, 5], live=1)
     # ---------------------------------------------------------------- adapter chains of SoCBusHandler.add_adapter
     add(mp="wb", kind="chain_wb_axil", lanes=4, slanes=8, words=4, wwords=[0, 3], strbs=[15, 2], datas=[5, 10], gfree=G1, live=1, cost=2)
+    # direction "s2m" (a Wishbone slave joins an AXI-Lite bus): byte addressed Wishbone side of AXILite2Wishbone + the
+    # byte->word address adaptation of the s2m branch
+    add(mp="axil", kind="chain_s2m_wb", lanes=4, slanes=4, words=2, wwords=[1], strbs=[15, 2, 0], datas=[5, 10], gfree=WB, serial=1,
+        cost=2)
     if T:
+        add(mp="axil", kind="chain_s2m_wb", lanes=8, slanes=4, words=2, wwords=[1], strbs=[255, 15, 0x20], datas=[0x55, 0xaa],
+            gfree=WB, serial=1, live=1, alone=1)
+        add(mp="axil", kind="axil2wb", lanes=2, words=2, gfree=WB, wbaddr="byte", base=0x40, serial=1, init="alt",
+            strbs=[3, 2, 0], datas=[1, 2])
         add(mp="axil", kind="chain_axil_wb", lanes=8, slanes=4, words=2, wwords=[1], strbs=[255, 15, 1, 0xf0], datas=[0x55, 0xaa],
             gfree=WB, serial=1, live=1, alone=1)
     # ---------------------------------------------------------------- AXI -> AXI-Lite / Wishbone
@@ -647,6 +730,14 @@ def configs(tier):
     add(mp="axi", kind="axi2axil", lanes=1, words=2, strbs=[1], serial=1, plans=[[0, 0, 1], [1, 0, 1], [0, 1, 1]], gfree=G1, bad=1,
         **LV, case="axi-lite-error", alone=1)
     add(mp="axi", kind="axi2wb", lanes=1, words=2, serial=1, plans=P5, gfree=WB, cost=3)
+    # partner that accepts the read addresses of a burst ahead of its answers / write data ahead of the addresses
+    ARA = ["second AR accepted before first R"]
+    WAH = ["W accepted before its AW"]
+    # (both hit listed findings of AXI2AXILite; quick judges the invariants only, thorough also Served)
+    add(mp="axi", kind="axi2axil", lanes=1, words=2, dirs="r", plans=P2, gfree=GR, abuf=1, ahead=1, live=int(T), wit=ARA,
+        case="read-addresses-ahead", alone=1)
+    add(mp="axi", kind="axi2axil", lanes=1, words=2, dirs="w", plans=P2, gfree=GW if T else [1, 2, 0, 0, 0], strbs=[1], wbuf=1,
+        ahead=1, live=int(T), wit=WAH, case="write-data-ahead", alone=1)
     if T:
         add(mp="axi", kind="axi2axil", lanes=1, words=4, serial=1, plans=P7, gfree=G1, alone=1)
         add(mp="axi", kind="axi2wb", lanes=1, words=4, serial=1, plans=P7, gfree=WB, alone=1)
@@ -660,4 +751,22 @@ def configs(tier):
     add(mp="ahb", kind="ahb2wb", lanes=4, words=2, datas=[5, 10], sizes=[1, 2], addrs=[0, 2, 4, 6], gfree=WB, cost=3)
     add(mp="ahb", kind="ahb2wb", lanes=4, words=2, datas=[5], sizes=[2], addrs=[0, 4], init="zero", gfree=WB, bad=1, live=1,
         case="wishbone-err", alone=1)
+    # address phases with HSEL low (transfers to another slave of the AHB segment)
+    add(mp="ahb", kind="ahb2wb", lanes=4, words=2, datas=[5], sizes=[2], addrs=[0, 4], init="zero", gfree=WB, nosel=1,
+        wit=["NONSEQ without sel"])
+    # 64-bit AHB (its own size-to-select table) with a byte addressed Wishbone side
+    W64 = ["64-bit write", "64-bit read", "narrow write to upper half"]
+    add(mp="ahb", kind="ahb2wb", lanes=8, words=2, init="zero", datas=[255], gfree=WB, wbaddr="byte", wit=W64, cost=3,
+        xfers=[[5, 1, 0], [6, 1, 1], [4, 1, 2], [1, 1, 0], [0, 0, 3], [8, 1, 3], [8, 0, 3]])
+    if T:
+        RD = [[0, 0, 3], [8, 0, 3]]
+        add(mp="ahb", kind="ahb2wb", lanes=8, words=2, init="zero", datas=[255], gfree=WB, wit=W64[1:], cost=3,
+            xfers=[[a, 1, 0] for a in (0, 1, 2, 3)] + [[12, 1, 0]] + RD)
+        add(mp="ahb", kind="ahb2wb", lanes=8, words=2, init="zero", datas=[255], gfree=WB, wit=W64[1:], cost=3,
+            xfers=[[a, 1, 0] for a in (4, 5, 6, 7)] + [[11, 1, 0]] + RD)
+        add(mp="ahb", kind="ahb2wb", lanes=8, words=2, init="zero", datas=[255], gfree=WB, wit=W64[1:], cost=3,
+            xfers=[[a, 1, 1] for a in (0, 2, 4, 6)] + [[10, 1, 1]] + RD)
+        add(mp="ahb", kind="ahb2wb", lanes=8, words=2, init="idx", datas=[0x5a, 0xa5], gfree=WB, wit=W64, live=1, cost=3,
+            xfers=[[0, 1, 2], [4, 1, 2], [0, 1, 3], [0, 0, 2], [4, 0, 2], [4, 0, 1], [7, 0, 0]] + RD[:1])
+        add(mp="ahb", kind="ahb2wb", lanes=4, words=2, datas=[5, 10], sizes=[0, 2], addrs=[0, 3, 4], gfree=WB, wbaddr="byte", cost=2)
     return out
